@@ -5,13 +5,14 @@ use crate::gen::rollback_history;
 use crate::interp::{run_history, CaseStats, RunOpts};
 use crate::ops::*;
 use crate::runner::*;
+use proptest::prelude::*;
 
 pub fn def() -> CheckDef {
     CheckDef {
         meta: CheckMeta {
             id: "C06",
             level: "exploration",
-            rule: "generated histories biased to rollbacks of large write transactions (bucket deletes, overflow values, hundreds of puts), read-only transactions attempting every mutator at every nesting level, reopen cycles and failing calls. Oracles: (i) whole-file hash identical before/after a dropped write tx, a read tx, and close+reopen+read; (ii) every mutator on a reader returns ReadOnlyTx and later dumps are unchanged; (iii) after any call that returned an error the full in-tx dump equals the unchanged model; (iv) all later transactions return what the model (which never saw the abandoned work) returns and the independent parser's exact page accounting holds after every later commit. Non-trivial = rollback of a tx with >= 10 mutations or a bucket delete followed by a state-changing commit, or a read tx attempting >= 5 distinct mutator kinds. Distinct = hash of the case.",
+            rule: "generated histories biased to rollbacks of large write transactions (bucket deletes, overflow values, hundreds of puts), read-only transactions attempting every mutator at every nesting level, reopen cycles and failing calls; 1 in 20 histories at page size 5000 or 1032 from a 4-page file, so that the file has grown and its length is not a whole number of pages. Oracles: (i) whole-file hash identical before/after a dropped write tx, a read tx, and close+reopen+read; (ii) every mutator on a reader returns ReadOnlyTx and later dumps are unchanged; (iii) after any call that returned an error the full in-tx dump equals the unchanged model; (iv) all later transactions return what the model (which never saw the abandoned work) returns and the independent parser's exact page accounting holds after every later commit. Non-trivial = rollback of a tx with >= 10 mutations or a bucket delete followed by a state-changing commit, or a read tx attempting >= 5 distinct mutator kinds. Distinct = hash of the case.",
             assumptions: &[
                 "files are compared by a 64-bit hash of all bytes plus length",
                 "byte-identical files across two separate runs are not asserted (page ids depend on HashMap order)",
@@ -38,13 +39,26 @@ fn shard(ctx: &ShardCtx, known: &Known) -> ShardOut {
     let opts = opts_for(ctx.db_path("c06.db"));
     let ps = |c: &HistoryCase| super::c01::minimize_with(ctx, known, c, &opts);
     let n = ctx.tier.pick(1500, 30000);
-    drive(ctx, &mut out, known, "history_c06", rollback_history(), n, "rb", Some(&ps), |case| {
+    // 1 in 20 histories runs at a page size that does not divide the 8 MiB growth step, from a
+    // 4-page file: the file grows at once and its length is not a whole number of pages
+    let strat = (rollback_history(), 0u8..40).prop_map(|(mut h, r)| {
+        if r == 0 {
+            h.cfg = Cfg { pagesize: 5000, num_pages: 4, strict: false, populate: false };
+        } else if r == 1 {
+            h.cfg = Cfg { pagesize: 1032, num_pages: 4, strict: false, populate: false };
+        }
+        h
+    });
+    drive(ctx, &mut out, known, "history_c06", strat, n, "rb", Some(&ps), |case| {
         note_current(ctx, "history_c06", case);
         let o = run_history(case, &opts);
         let mut classes = Vec::new();
         let s = &o.stats;
         if s.big_rollbacks > 0 {
             classes.push("big rollback".to_string());
+        }
+        if case.cfg.pagesize % 1024 != 0 && s.growth {
+            classes.push("page size not dividing the growth step, file grown".to_string());
         }
         if s.rollback_then_commit {
             classes.push("rollback then commit".to_string());
